@@ -183,6 +183,143 @@ fn run_handoff(c: &Handoff) -> Verdict {
     })
 }
 
+// ---- component hand-off over the network: an address travels  transport peer table → DhtNetworkManager peer
+// map (NetworkAddress) → its Display rendering in a FIND_NODE reply → the requester's dial.  Real nodes on the
+// in-memory network; the third node (or the node a lying peer names) sits at the generated address.
+#[derive(Debug, Clone, Serialize, Deserialize)]
+pub struct NetHandoff {
+    addr: Addr,
+    id_seed: u8,
+    /// None: a real relay node A (knows B) produces the reply; Some(r): a stub names B with rendering r
+    /// 0 = bare socket form, 1 = library Display form, 2 = Display form cut short, 3 = socket form + garbage suffix
+    liar_rendering: Option<u8>,
+    cut: u16,
+}
+fn run_net_handoff(c: &NetHandoff) -> Verdict {
+    use crate::memnet::*;
+    let pan0 = panic_count();
+    let mut v = paused_rt().block_on(async {
+        let mut v = Verdict::new();
+        let t_req = std::time::Duration::from_secs(2);
+        let sb = c.addr.sa();
+        let hub = Hub::new(c.id_seed as u64, 0);
+        let tid = |i: u8| *blake3::hash(&[c.id_seed, i, 0x19, 0x01]).as_bytes();
+        let (ra, aa) = (node_addr(0), node_addr(1));
+        if sb == ra || sb == aa {
+            v.class("address_collides_with_fixture");
+            return v;
+        }
+        let r = match add_node(&hub, tid(0), ra, None, t_req, 8).await {
+            Ok(x) => x,
+            Err(e) => {
+                v.fail(format!("{ID}/harness/node-construction-failed"), e);
+                return v;
+            }
+        };
+        let b = match add_node(&hub, tid(2), sb, None, t_req, 8).await {
+            Ok(x) => x,
+            Err(e) => {
+                v.fail(format!("{ID}/harness/node-construction-failed"), e);
+                return v;
+            }
+        };
+        let mut relay = None;
+        let mut allowed: Vec<SocketAddr> = vec![sb];
+        let mut must_dial = true;
+        let rendering;
+        match c.liar_rendering {
+            None => {
+                let a = match add_node(&hub, tid(1), aa, None, t_req, 8).await {
+                    Ok(x) => x,
+                    Err(e) => {
+                        v.fail(format!("{ID}/harness/node-construction-failed"), e);
+                        return v;
+                    }
+                };
+                // A learns B's address the way a transport reports it (socket form), R knows only A
+                let _ = a.th.connect_peer(&sb.to_string()).await;
+                let _ = r.th.connect_peer(&aa.to_string()).await;
+                allowed.push(aa);
+                rendering = "relay".to_string();
+                relay = Some(a);
+                v.class("relay_node_reply");
+            }
+            Some(k) => {
+                let shown = NetworkAddress::new(sb).to_string();
+                let s = match k % 4 {
+                    0 => sb.to_string(),
+                    1 => shown.clone(),
+                    2 => {
+                        let mut e = idx(c.cut, shown.len().max(1)).max(1).min(shown.len());
+                        while !shown.is_char_boundary(e) {
+                            e -= 1;
+                        }
+                        must_dial = e == shown.len();
+                        shown[..e].to_string()
+                    }
+                    _ => {
+                        must_dial = false;
+                        format!("{sb} (not four words at all)")
+                    }
+                };
+                if let Some(sp) = s.split(" (").next().and_then(|x| x.trim().parse::<SocketAddr>().ok()) {
+                    // what the text actually spells (a cut inside the digits spells a shorter address)
+                    allowed.push(sp);
+                }
+                let sid = tid(7);
+                let saddr = node_addr(9);
+                add_stub(&hub, sid, saddr, StubScript { reply_nodes: vec![saorsa_core::dht_network_manager::DHTNode { peer_id: b.tid.clone(), address: s.clone(), distance: None, reliability: 1.0, cached_dht_key: None }], ack_put: true, value: None, wrong_id: false });
+                let _ = r.th.connect_peer(&saddr.to_string()).await;
+                allowed.push(saddr);
+                rendering = s;
+                v.class(["liar_socket_form", "liar_display_form", "liar_cut_rendering", "liar_garbage_suffix"][(k % 4) as usize]);
+            }
+        }
+        settle(50).await;
+        hub.clear_trace();
+        let key = dht_key_of(&b.tid);
+        let res = tokio::time::timeout(t_req * 50, r.mgr.find_closest_nodes(&key, 8)).await;
+        let trace = hub.trace();
+        let unspecified = sb.ip().is_unspecified();
+        let mut dialled_b = false;
+        for e in &trace {
+            if let Ev::Dial { from, addr, .. } = e {
+                if *from != r.tid {
+                    continue;
+                }
+                if *addr == sb {
+                    dialled_b = true;
+                }
+                // a wildcard is normalised to loopback by connect_peer; nothing else may differ from the text
+                let norm_ok = allowed.iter().any(|a| a == addr || (a.ip().is_unspecified() && addr.ip().is_loopback() && a.port() == addr.port()));
+                if !norm_ok {
+                    v.fail(format!("{ID}/dial_candidate/dialled-an-address-the-string-does-not-spell"), format!("'{rendering}' (node at {sb}) → dialled {addr}"));
+                }
+            }
+        }
+        if unspecified {
+            v.class("unspecified_ip_(refused_by_design)");
+        } else if must_dial {
+            let connected = r.th.is_peer_connected(&b.tid).await;
+            if !dialled_b || !connected {
+                v.fail(format!("{ID}/dial_candidate/library-rendered-address-not-dialled"), format!("node at {sb} named as '{rendering}': dialled={dialled_b} connected={connected} lookup={:?}", res.as_ref().map(|r| r.as_ref().map(|n| n.len()).map_err(|e| e.to_string()))));
+            } else if let Ok(Ok(nodes)) = &res {
+                // B is the node whose key was looked up and it answers: it must be the first entry
+                let first_is_b = nodes.first().map(|n| n.peer_id == b.tid).unwrap_or(false);
+                v.check(first_is_b, &format!("{ID}/find_closest_nodes/node-reached-through-rendered-address-missing-from-result"), || format!("node at {sb}: result {:?}", nodes.iter().map(|n| n.peer_id[..8].to_string()).collect::<Vec<_>>()));
+            }
+        }
+        v.nt(true);
+        v.class(if sb.is_ipv4() { "ipv4_target" } else { "ipv6_target" });
+        for nd in [Some(&r), Some(&b), relay.as_ref()].into_iter().flatten() {
+            let _ = tokio::time::timeout(std::time::Duration::from_secs(600), nd.mgr.stop()).await;
+        }
+        v
+    });
+    attribute_task_panics(&mut v, ID, pan0);
+    v
+}
+
 // ---- malformed strings ----------------------------------------------------
 #[derive(Debug, Clone, Serialize, Deserialize)]
 pub enum Bad {
@@ -265,6 +402,10 @@ fn v6_classes() -> impl Strategy<Value = Addr> {
         any::<[u16; 8]>(),
     ];
     (ip, port).prop_map(|(s, p)| Addr::V6(s, p))
+}
+fn grid_addr() -> impl Strategy<Value = Addr> {
+    let o = || prop::sample::select(vec![0u8, 1, 127, 128, 254, 255]);
+    (o(), o(), o(), o(), prop::sample::select(vec![0u16, 1, 1023, 1024, 65534, 65535])).prop_map(|(a, b, c, d, p)| Addr::V4([a, b, c, d], p))
 }
 fn variant() -> impl Strategy<Value = Variant> {
     prop_oneof![3 => Just(Variant::AsIs), 1 => Just(Variant::Spaces), 1 => Just(Variant::Upper), 1 => Just(Variant::Mixed), 1 => Just(Variant::Padded), 1 => Just(Variant::DoubleSep)]
@@ -398,6 +539,9 @@ pub fn run(run: &Run) {
     run.prop("ipv6", run.tier.pick(150000, 4000000), sh, c6, check_addr);
     let h = (prop_oneof![3 => v4_any(), 1 => v6_classes()], any::<bool>(), any::<bool>(), any::<u16>(), any::<bool>()).prop_map(|(addr, first_display, second_display, second_port, second_other_ip)| Handoff { addr, first_display, second_display, second_port, second_other_ip });
     run.prop("handoff", run.tier.pick(75000, 800000), sh, h, run_handoff);
+    run.set_rule("net_handoff", "3 real nodes on the in-memory network: R knows A, A knows B, B sits at a generated IPv4/IPv6 address (all classes, boundary ports); R looks B's key up, so B's address travels transport peer table → DHT peer map → Display rendering in A's FIND_NODE reply → R's dial. Variant: a stub names B in the socket form, the Display form, a cut rendering or with a garbage suffix. Oracle: R dials exactly B's socket address (and reaches B) for every library rendering, and never dials an address the string does not spell; all non-trivial");
+    let nh = (prop_oneof![2 => v4_any(), 2 => v6_classes(), 1 => grid_addr()], any::<u8>(), prop_oneof![2 => Just(None), 3 => (0u8..4).prop_map(Some)], any::<u16>()).prop_map(|(addr, id_seed, liar_rendering, cut)| NetHandoff { addr, id_seed, liar_rendering, cut });
+    run.prop("net_handoff", run.tier.pick(4000, 60000), sh, nh, run_net_handoff);
     let any_addr = || prop_oneof![3 => v4_any(), 1 => v6_classes()];
     let bad = prop_oneof![
         2 => ".{0,40}".prop_map(Bad::Random),
@@ -417,6 +561,7 @@ pub fn replay(run: &Run, sub: &str, case: &Value) -> Option<bool> {
         "ipv4_grid" | "ipv4_random" | "ipv6" => Some(run.eval_case("replay/addr", &from_value::<Case>(case)?, &check_addr)),
         "handoff" => Some(run.eval_case("replay/handoff", &from_value::<Handoff>(case)?, &run_handoff)),
         "malformed" => Some(run.eval_case("replay/malformed", &from_value::<Bad>(case)?, &run_bad)),
+        "net_handoff" => Some(run.eval_case("replay/net_handoff", &from_value::<NetHandoff>(case)?, &run_net_handoff)),
         _ => None,
     }
 }
